@@ -101,6 +101,16 @@ def run_check(prop, tier, seed, replay=None):
     prop.exes = exes
     ok, out = lib.coq_make(lib.model_targets())
     proofs = lib.check_proofs(prop.id)
+    if tier == 'thorough' and not replay and not proofs['failures']:
+        # independent re-check of the compiled property file and everything it depends on
+        okc, outc = lib.coqchk(prop.id)
+        import re as _re
+        ax = _re.search(r'\* Axioms:\s*(.*?)\n\s*\n', outc, _re.S)
+        axioms = ax.group(1).strip() if ax else '?'
+        proofs['cmd'] += ' && coqchk -o -silent -R . Xeh Xeh.Props.%s' % prop.id
+        proofs['coqchk'] = dict(ok=okc, axioms=axioms)
+        if not okc or axioms != '<none>':
+            proofs['failures'].append('coqchk: %s' % (outc[-600:] if not okc else 'axioms: ' + axioms))
     model_exe = lib.build_model_driver()
 
     # ---- cases
@@ -131,7 +141,7 @@ def run_check(prop, tier, seed, replay=None):
                 prop_fails.append((c, a, mirror[i], spec[i], p))
             elif mirror[i] == 'UNSUP':
                 unsupported += 1          # behaviour outside the model: not comparable
-            elif not prop.same(a, mirror[i]):
+            elif not (prop.same_case(c, a, mirror[i]) if hasattr(prop, 'same_case') else prop.same(a, mirror[i])):
                 corr_breaks.append((c, a, mirror[i], spec[i], p))
     for i, c in enumerate(cases):
         if spec[i] != '-' and mirror[i] != 'UNSUP' and not spec_same(prop, mirror[i], spec[i]):
@@ -255,7 +265,7 @@ def run_check(prop, tier, seed, replay=None):
     cov = dict(
         obligations=max(1, proofs['obligations']), discharged=proofs['discharged'],
         checker_cmd=proofs['cmd'], trusted_base=prop.trusted_base,
-        theorems=proofs['theorems'], axioms=proofs['axioms'], proof_failures=proofs['failures'],
+        theorems=proofs['theorems'], axioms=proofs['axioms'], proof_failures=proofs['failures'], coqchk=proofs.get('coqchk'),
         evaluations=len(cases) * len(prop.profiles) + d_evals,
         distinct_nontrivial=len(distinct), rule=prop.rule,
         samples=samples + d_samples,
